@@ -32,6 +32,12 @@ package main
 // backend (no lasting surplus of open connections over the most calls that
 // were ever in flight together).
 //
+// Size limits: proxy.grpcmaxrxmsgsize and proxy.grpcmaxtxmsgsize are part of the scenario (default in most runs,
+// otherwise below or above the documented default, independently of each other) and such runs carry a few
+// messages of an exact size at the boundaries. Only messages within both limits (within the configured limit
+// on each of the four legs) are judged: they must travel like any other message. A call in which a peer sends
+// a message beyond one of the limits is compared like a call under a fault from then on.
+//
 // Nothing that depends on grpc-go's frame batching reaches the trace: the
 // trace consists of the driver's events and of per-call / per-backend
 // summaries printed by the driver at quiescent states in canonical order.
@@ -150,7 +156,29 @@ type c16Scenario struct {
 	Outage          *c16Outage    `json:"backend_outage,omitempty"`
 	ShutdownTimeout time.Duration `json:"grpc_shutdown_timeout"`
 	Stick           int           `json:"stick"`
+	// the documented size options of the gRPC listener and the messages placed at their boundaries
+	MaxRx    int           `json:"proxy_grpcmaxrxmsgsize"`
+	MaxTx    int           `json:"proxy_grpcmaxtxmsgsize"`
+	Boundary []c16Boundary `json:"messages_at_the_size_limits,omitempty"`
 }
+
+// c16Boundary replaces one generated message by one whose size is chosen relative to the configured limits.
+type c16Boundary struct {
+	Call  int    `json:"call"`
+	Dir   string `json:"direction"` // request | reply
+	Index int    `json:"message"`
+	Size  int    `json:"size"`
+	Rel   string `json:"relative_to_limits"`
+}
+
+// c16DocDefaultLimit is the documented default of proxy.grpcmaxrxmsgsize and proxy.grpcmaxtxmsgsize
+// (docs/content/ref/proxy.grpcmaxrxmsgsize.md); the generator uses it to place configured limits below and
+// above it, the oracle does not.
+const c16DocDefaultLimit = 4194304
+
+// c16StubLimit is what the stub peers accept: far above every generated message, so that only fabio's
+// limits are ever in the way.
+const c16StubLimit = 64 << 20
 
 var c16AllBackends = []string{"b0.sim:8000", "b0.sim:8001", "b1.sim:8000", "b2.sim:8000"}
 var c16Services = []string{"/sim.Alpha", "/sim.Beta", "/x.Gamma"}
@@ -277,6 +305,44 @@ func c16ProtoMsg(seed int64, size int) []byte {
 		}
 	}
 	return b
+}
+
+// c16ProtoMsgExact builds a well-formed protobuf message of exactly size bytes: a short random sequence of
+// fields followed by one length-delimited field of random bytes that fills the rest.
+func c16ProtoMsgExact(seed int64, size int) []byte {
+	if size < 2 {
+		return []byte{} // no field fits (not reachable with the generated limits)
+	}
+	if size < 64 {
+		// a sequence of one-byte varint fields (2 bytes each), and a fixed32 field (5 bytes) for an odd size
+		var b []byte
+		if size%2 == 1 && size >= 5 {
+			b = protowire.AppendTag(b, 3, protowire.Fixed32Type)
+			b = protowire.AppendFixed32(b, uint32(seed))
+		}
+		for len(b) < size {
+			b = protowire.AppendTag(b, 1, protowire.VarintType)
+			b = protowire.AppendVarint(b, uint64(len(b)%100))
+		}
+		return b
+	}
+	rng := rand.New(rand.NewSource(seed))
+	b := c16ProtoMsg(seed, rng.Intn(24))
+	for {
+		rem := size - len(b)
+		for k := 1; k <= 5; k++ {
+			n := rem - 1 - k
+			if n >= 0 && protowire.SizeVarint(uint64(n)) == k {
+				p := make([]byte, n)
+				rng.Read(p)
+				b = protowire.AppendTag(b, protowire.Number(1+rng.Intn(15)), protowire.BytesType)
+				return protowire.AppendBytes(b, p)
+			}
+		}
+		// the remaining length sits on a boundary of the length prefix: one more small field shifts it
+		b = protowire.AppendTag(b, 2, protowire.VarintType)
+		b = protowire.AppendVarint(b, uint64(rng.Intn(100)))
+	}
 }
 
 func c16Size(g *simcore.Tape, thorough bool) int {
@@ -479,7 +545,97 @@ func c16Gen(g *simcore.Tape, thorough bool) *c16Scenario {
 			}
 		}
 	}
+	c16GenLimits(g, sc)
 	return sc
+}
+
+// c16GenLimits draws the size options of the listener and, in the minority of runs where one of them differs
+// from the documented default, places one to three messages at the boundaries. proxy.grpcmaxrxmsgsize and
+// proxy.grpcmaxtxmsgsize are chosen independently of each other: the default, below it (64 KiB - 1 MiB) or above
+// it (5 - 9 MiB). A boundary message is just below or exactly at the smaller of the two limits (within every
+// limit: it must travel unmodified), just above it, or around the larger one (beyond a limit: not judged).
+// Large buffers are slow, so these runs are few and have few such messages; runs with the default limits
+// get a message at the default boundary now and then.
+func c16GenLimits(g *simcore.Tape, sc *c16Scenario) {
+	sc.MaxRx, sc.MaxTx = c16DocDefaultLimit, c16DocDefaultLimit
+	n := 0
+	if g.Chance(10) {
+		limit := func() int {
+			switch g.Intn(6) {
+			case 1, 2, 3:
+				return g.Range(5<<20, 9<<20)
+			case 4, 5:
+				return g.Range(64<<10, 1<<20)
+			}
+			return c16DocDefaultLimit
+		}
+		sc.MaxRx, sc.MaxTx = limit(), limit()
+		n = g.Range(1, 3)
+	} else if g.Chance(2) {
+		n = 1
+	}
+	if n == 0 {
+		return
+	}
+	lo, hi := sc.MaxRx, sc.MaxTx
+	if lo > hi {
+		lo, hi = hi, lo
+	}
+	// candidate places: messages of calls that the first table routes to a backend (else of any call); replies of
+	// a backend that never answers are never sent
+	type slot struct {
+		call  int
+		reply bool
+	}
+	var routed, all []slot
+	for i := range sc.Calls {
+		c := &sc.Calls[i]
+		r := len(c16Expect(&sc.Tables[0], c.Method, c.DstHost)) > 0
+		for _, reply := range []bool{false, true} {
+			if (reply && (len(c.Reply.Msgs) == 0 || c.Stall)) || (!reply && len(c.Msgs) == 0) {
+				continue
+			}
+			all = append(all, slot{i, reply})
+			if r {
+				routed = append(routed, slot{i, reply})
+			}
+		}
+	}
+	if len(routed) > 0 {
+		all = routed
+	}
+	if len(all) == 0 {
+		return
+	}
+	for k := 0; k < n; k++ {
+		sl := all[g.Intn(len(all))]
+		c := &sc.Calls[sl.call]
+		var size int
+		var rel string
+		switch g.Intn(8) {
+		case 0, 1, 2:
+			size, rel = lo-g.Range(0, 8), "at or just below the smaller limit"
+		case 3:
+			size, rel = lo-g.Range(9, 5000), "below the smaller limit"
+		case 4, 5:
+			size, rel = lo+g.Range(1, 8), "just above the smaller limit"
+		case 6:
+			size, rel = hi-g.Range(0, 8), "at or just below the larger limit"
+		case 7:
+			size, rel = hi+g.Range(1, 8), "just above the larger limit"
+		}
+		m := c16ProtoMsgExact(int64(g.Intn(1<<30)), size)
+		b := c16Boundary{Call: sl.call, Dir: "request", Size: len(m), Rel: rel}
+		if sl.reply {
+			b.Dir = "reply"
+			b.Index = g.Intn(len(c.Reply.Msgs))
+			c.Reply.Msgs[b.Index], c.Reply.Sizes[b.Index] = m, len(m)
+		} else {
+			b.Index = g.Intn(len(c.Msgs))
+			c.Msgs[b.Index], c.Sizes[b.Index] = m, len(m)
+		}
+		sc.Boundary = append(sc.Boundary, b)
+	}
 }
 
 // ---------------------------------------------------------------- raw codec of the stub peers
@@ -556,6 +712,7 @@ type c16CallState struct {
 	dialWindow bool
 	affected   string
 	recovering bool // started while a backend it is routed to was reconnecting after an outage
+	largest    int  // the largest message within the limits that a peer of this call has sent
 	summary    string
 }
 
@@ -624,6 +781,7 @@ type c16Env struct {
 	settling   bool
 	bound      time.Duration
 	adoptSeq   int
+	limit      int // the smaller of proxy.grpcmaxrxmsgsize and proxy.grpcmaxtxmsgsize
 }
 
 func c16MD(kvs []c16KV) metadata.MD {
@@ -913,6 +1071,7 @@ func (e *c16Env) events() []simcore.Event {
 				add(id+"send", 2, func() {
 					e.mu.Lock()
 					c.cBusy = true
+					e.beyondLimit(c, c.sc.Msgs[c.nextSend])
 					e.mu.Unlock()
 					c.ccmd <- c16OpSend
 				})
@@ -944,6 +1103,9 @@ func (e *c16Env) events() []simcore.Event {
 					c.bBusy = true
 					if op == c16OpHeader {
 						c.hdrSent = true
+					}
+					if op == c16OpReply {
+						e.beyondLimit(c, rep.Msgs[c.nextReply])
 					}
 					e.mu.Unlock()
 					c.bcmd <- op
@@ -1004,6 +1166,24 @@ func (e *c16Env) events() []simcore.Event {
 		})
 	}
 	return ev
+}
+
+// beyondLimit is called (with e.mu held) when a peer is about to send message m of call c. A message that is
+// larger than one of the two configured limits is beyond what the listener is configured to carry on one of
+// the four legs: the statement makes no demand on what becomes of it, and the call is compared like a call
+// under a fault from here on (prefix-correct messages, unmodified request metadata). Messages within both
+// limits leave the call under the strict comparison.
+func (e *c16Env) beyondLimit(c *c16CallState, m []byte) {
+	if len(m) <= e.limit {
+		if len(m) > c.largest {
+			c.largest = len(m)
+		}
+		return
+	}
+	e.r.Probe("message_beyond_a_configured_limit")
+	if c.affected == "" {
+		c.affected = "message-beyond-limit"
+	}
 }
 
 // resetConnOf injects a connection reset on the fabio->backend connection that carries call c.
@@ -1365,11 +1545,19 @@ func runC16(r *simcore.Run) {
 	cfg.Proxy.Strategy = "rr"
 	cfg.Proxy.Matcher = "prefix"
 	cfg.GlobCacheSize = 100
-	cfg.Proxy.GRPCMaxRxMsgSize = 4 << 20
-	cfg.Proxy.GRPCMaxTxMsgSize = 4 << 20
+	cfg.Proxy.GRPCMaxRxMsgSize = sc.MaxRx
+	cfg.Proxy.GRPCMaxTxMsgSize = sc.MaxTx
 	cfg.Proxy.GRPCGShutdownTimeout = sc.ShutdownTimeout
 
 	e := &c16Env{r: r, sc: sc, cfg: cfg, stop: make(chan struct{}), bound: c16SweepSlack + sc.ShutdownTimeout}
+	// a message is within the configured limits on all four legs when it is no larger than both options
+	e.limit = sc.MaxRx
+	if sc.MaxTx < e.limit {
+		e.limit = sc.MaxTx
+	}
+	if len(sc.Boundary) > 0 || sc.MaxRx != c16DocDefaultLimit || sc.MaxTx != c16DocDefaultLimit {
+		r.Tracef("limits rx=%d tx=%d boundary messages=%d", sc.MaxRx, sc.MaxTx, len(sc.Boundary))
+	}
 	e.d = simcore.NewDriver(r)
 	d := e.d
 	d.Stick = sc.Stick
@@ -1448,14 +1636,14 @@ func runC16(r *simcore.Run) {
 			return
 		}
 		b.ln = bl
-		b.srv = grpc.NewServer(grpc.ForceServerCodec(c16Codec{}), grpc.UnknownServiceHandler(e.backendHandler(b)), grpc.MaxRecvMsgSize(8<<20))
+		b.srv = grpc.NewServer(grpc.ForceServerCodec(c16Codec{}), grpc.UnknownServiceHandler(e.backendHandler(b)), grpc.MaxRecvMsgSize(c16StubLimit))
 		go b.srv.Serve(bl)
 	}
 	for i := 0; i < sc.Callers; i++ {
 		i := i
 		nconn := 0
 		cc, err := grpc.NewClient("passthrough:///"+c16FabioAddr, grpc.WithTransportCredentials(insecure.NewCredentials()),
-			grpc.WithDefaultCallOptions(grpc.MaxCallRecvMsgSize(8<<20)),
+			grpc.WithDefaultCallOptions(grpc.MaxCallRecvMsgSize(c16StubLimit)),
 			grpc.WithContextDialer(func(ctx context.Context, addr string) (net.Conn, error) {
 				from := &net.TCPAddr{IP: net.IPv4(192, 0, 2, byte(10+i)), Port: 5000 + nconn}
 				nconn++
@@ -1682,6 +1870,13 @@ func (e *c16Env) check() {
 			r.Fail("routing", "not-forwarded", "%s matches a route of table %d but no backend received it; the caller got %s %q", what, c.startTable, c.cCode, c.cMsg)
 			continue
 		}
+		if c.cCode == codes.ResourceExhausted && (!c.bDone || c.bAborted || sc.Reply.Code != int(codes.ResourceExhausted)) {
+			// not the backend's status: somebody between the peers refused a message although every message of
+			// this call is within both configured limits (the largest one sent had c.largest bytes)
+			r.Fail("transparency", "message-within-limits-refused", "%s: every message sent is within proxy.grpcmaxrxmsgsize=%d and proxy.grpcmaxtxmsgsize=%d (largest %d bytes; %d of %d request and %d of %d reply messages sent), yet the caller got %s %q, which is not the backend's status",
+				what, e.sc.MaxRx, e.sc.MaxTx, c.largest, c.nextSend, len(sc.Msgs), c.nextReply, len(sc.Reply.Msgs), c.cCode, c.cMsg)
+			continue
+		}
 		if !c.bDone || c.bAborted {
 			r.Fail("transparency", "backend-aborted", "%s: the backend's stream was cancelled before it had played its reply (caller got %s %q) although no fault was injected", what, c.cCode, c.cMsg)
 			continue
@@ -1716,6 +1911,16 @@ func (e *c16Env) check() {
 		for _, n := range sc.Sizes {
 			if n > 60000 {
 				r.Probe("message_above_60k")
+			}
+		}
+		if len(e.sc.Boundary) > 0 {
+			switch {
+			case c.largest > c16DocDefaultLimit:
+				r.Probe("compared_call_with_message_above_default_limit")
+			case c.largest > e.limit-5001 && e.limit < c16DocDefaultLimit:
+				r.Probe("compared_call_with_message_at_lowered_limit")
+			case c.largest > e.limit-5001:
+				r.Probe("compared_call_with_message_at_default_limit")
 			}
 		}
 	}
